@@ -26,6 +26,7 @@ type Program struct {
 	pkgName  map[string]string
 	storedGlobals map[*ssa.Global]bool
 	ppkgs    []*packages.Package
+	gconsts  map[*ssa.Global]*ssa.Const
 }
 
 func loadProgram(repo, libDir string) (*Program, error) {
@@ -184,6 +185,9 @@ func (p *Program) lookupGlobal(name string, ctx *ssa.Package, st *State) (Value,
 		case *ssa.Global:
 			et := m.Type().(*types.Pointer).Elem()
 			vcx := &VC{}
+			if c := p.globalConst(m); c != nil {
+				return vcx.constValue(c), et, true
+			}
 			return st.load(vcx.globalRef(m), et), et, true
 		}
 	}
@@ -230,6 +234,45 @@ func (p *Program) globalInitFacts(st *State) []*Term {
 		}
 	}
 	return facts
+}
+
+// globalConst: the literal a module-level variable is initialised with, when nothing in the module ever stores to it
+func (p *Program) globalConst(g *ssa.Global) *ssa.Const {
+	if p.gconsts == nil {
+		p.gconsts = map[*ssa.Global]*ssa.Const{}
+		for _, pk := range p.pkgs {
+			init := pk.Func("init")
+			if init == nil {
+				continue
+			}
+			for _, b := range init.Blocks {
+				for _, ins := range b.Instrs {
+					s, ok := ins.(*ssa.Store)
+					if !ok {
+						continue
+					}
+					gl, ok := s.Addr.(*ssa.Global)
+					if !ok || p.storedGlobals[gl] || strings.Contains(gl.Name(), "$") {
+						continue
+					}
+					c, ok := s.Val.(*ssa.Const)
+					if !ok {
+						continue
+					}
+					et := gl.Type().(*types.Pointer).Elem()
+					if k := kindOf(et); k != "str" && k != "int" && k != "bool" {
+						continue
+					}
+					if _, dup := p.gconsts[gl]; dup {
+						p.gconsts[gl] = nil // initialised twice: not a constant
+						continue
+					}
+					p.gconsts[gl] = c
+				}
+			}
+		}
+	}
+	return p.gconsts[g]
 }
 
 // namedType resolves "pkg.Type" (package by name) to its named type
